@@ -50,7 +50,27 @@ type SVGImage struct {
 
 	// needed to draw text
 	cursorPosition, cursorDPosition point
+
+	// clip paths, masks and markers currently being drawn :
+	// a reference to one of them from its own content is ignored,
+	// to prevent infinite recursion
+	inProgress map[interface{}]bool
 }
+
+// enter registers `key` as being drawn; it returns false
+// if it is already the case (cyclic reference)
+func (svg *SVGImage) enter(key interface{}) bool {
+	if svg.inProgress[key] {
+		return false
+	}
+	if svg.inProgress == nil {
+		svg.inProgress = make(map[interface{}]bool)
+	}
+	svg.inProgress[key] = true
+	return true
+}
+
+func (svg *SVGImage) leave(key interface{}) { delete(svg.inProgress, key) }
 
 // DisplayedSize returns the value of the "width" and "height" attributes
 // of the <svg> root element, which discribe the displayed size of the rectangular viewport.
@@ -119,8 +139,9 @@ func (svg *SVGImage) drawNode(dst backend.Canvas, node *svgNode, dims drawingDim
 		}
 
 		// clip
-		if cp, has := svg.definitions.clipPaths[node.clipPathID]; has {
+		if cp, has := svg.definitions.clipPaths[node.clipPathID]; has && svg.enter(cp) {
 			svg.applyClipPath(dst, cp, node, dims)
+			svg.leave(cp)
 		}
 
 		// Handle text anchor
@@ -191,8 +212,9 @@ func (svg *SVGImage) drawNode(dst backend.Canvas, node *svgNode, dims drawingDim
 		}
 
 		// apply mask
-		if ma, has := svg.definitions.masks[node.maskID]; has {
+		if ma, has := svg.definitions.masks[node.maskID]; has && svg.enter("mask:"+node.maskID) {
 			svg.applyMask(dst, ma, node, dims)
+			svg.leave("mask:" + node.maskID)
 		}
 
 		// do the actual painting :
@@ -251,7 +273,7 @@ func (svg *SVGImage) drawMarkers(dst backend.Canvas, vertices []vertex, node *sv
 		}
 
 		marker := markers[position]
-		if marker == nil {
+		if marker == nil || !svg.enter(marker) {
 			continue
 		}
 
@@ -322,6 +344,7 @@ func (svg *SVGImage) drawMarkers(dst backend.Canvas, vertices []vertex, node *sv
 			})
 		}
 
+		svg.leave(marker)
 	}
 }
 
